@@ -53,6 +53,7 @@ def run(ctx):
     h = Harness("binops", FEATURES, prelude=B.prelude(BASES, TYPES))
     tdim = t.qmap["time"]["dim"]
     cases, meta, mlines = [], {}, []
+    alines = []
     for ty in TYPES:
         cls = STYPES[ty]["cls"]
         for qm in quants:
@@ -126,6 +127,9 @@ def run(ctx):
                             cases.append((cid, slot, [op, ta]))
                             meta[cid] = (ty, f"{a['module']}->{b['module']}", bsl, bsr, op, va, tuple(a["dim"]), None, slot)
                             mlines.append(f"{cid} {cls} std (rebase 1 {Ul} {Ur} {T.zlist(a['dim'])} {model_val(ty, ta)})")
+                            if B.is_float(ty):
+                                # c06_float_rebase_relative_error: premise and operation count from the extracted safe_q
+                                alines.append(f"{cid} a{ty[1:]} std (rebase 1 {Ul} {Ur} {T.zlist(a['dim'])} {model_val(ty, ta)})")
     ctx.log(f"{len(h.slots)} slots, {len(cases)} cases; building harness")
     if not h.build():
         ctx.log(h.build_log[-3000:])
@@ -134,8 +138,10 @@ def run(ctx):
         return
     impl = h.run(cases)
     model = coqbuild.run_model(mlines)
+    acc = coqbuild.run_model(alines)
     ctx.log(f"implementation answered {len(impl)}, model answered {len(model)}")
     ctx.vm_crosscheck(mlines, model)
+    thm = {"rebase_cases": 0, "premise_holds": 0, "instances_checked": 0, "max_ops": 0, "failures": 0}
 
     def factor(ty, bs, dim):
         fty = ty if B.is_float(ty) else "f64"   # exact classes: from_f64 of the f64 coefficient
@@ -178,6 +184,18 @@ def run(ctx):
                 if not all(FC.in_normal_range(x, ty, margin=8 + 2 * n) for x in (fa if fa else Fraction(1), ex if ex else Fraction(1), ratio, 1 / ratio)):
                     continue
                 spec_checked += 1
+                a_ = acc.get(cid)
+                if a_ is not None:
+                    thm["rebase_cases"] += 1
+                    sf, nops = (a_.split() + ["0", "0"])[:2]
+                    if sf == "1" and got != "nan" and not FC.is_inf_bits(int(got, 16), ty):
+                        thm["premise_holds"] += 1
+                        thm["instances_checked"] += 1
+                        thm["max_ops"] = max(thm["max_ops"], int(nops))
+                        bound = ((1 / (1 - u_)) ** int(nops) - 1) * abs(ex)
+                        if abs(FC.bits_to_frac(int(got, 16), ty) - ex) > bound:
+                            thm["failures"] += 1
+                            spec_fail.append((cid, f"outside the PROVED bound of c06_float_rebase_relative_error: (H^{nops} - 1)|exact| = {float(bound):.3e}"))
                 if got == "nan" or FC.is_inf_bits(int(got, 16), ty):
                     spec_fail.append((cid, f"finite in-range magnitude converted to {got}"))
                 elif abs(FC.bits_to_frac(int(got, 16), ty) - ex) > En * abs(ex) + FC.ulp_of(ex, ty):
@@ -296,6 +314,7 @@ def run(ctx):
                    "default-kind twin (non-zero dimension) over every ordered pair of base sets; non-trivial = the two base sets differ")
     cov["disagreements_checked"] = len(disagreements)
     cov["spec_checked"] = spec_checked
+    cov["accuracy_theorem_instances"] = thm
     cov["spec_failures"] = len(spec_fail)
     cov["slots"] = len(h.slots)
     cov["histogram"] = dict(sorted(hist.items())[:60])
